@@ -8,21 +8,11 @@ import Optyx.Generated.PinsC04
 namespace Optyx.Props.PinsC04
 open Optyx.Generated.PinsC04
 
-/-- `compute_degree` (analysis.py) -/
-theorem pin_analysis_compute_degree_anchor : pin_analysis_compute_degree = "e9c75ebb425434aa" := rfl
 /-- `_estimate_tree_depth` (analysis.py) -/
 theorem pin_analysis_estimate_tree_depth_anchor : pin_analysis_estimate_tree_depth = "2165600c9d813bf0" := rfl
-/-- `_compute_degree_cached` (analysis.py) -/
-theorem pin_analysis_compute_degree_cached_anchor : pin_analysis_compute_degree_cached = "9580292bbe7c42a5" := rfl
-/-- `is_linear` (analysis.py) -/
-theorem pin_analysis_is_linear_anchor : pin_analysis_is_linear = "368707ab5315f57a" := rfl
-/-- `is_quadratic` (analysis.py) -/
-theorem pin_analysis_is_quadratic_anchor : pin_analysis_is_quadratic = "997693866754063e" := rfl
-/-- `Expression.degree` (core/expressions.py) -/
-theorem pin_expressions_Expression_degree_anchor : pin_expressions_Expression_degree = "7b56f3245c66a648" := rfl
 
 /-- every function the model of C04 transcribes (and no translator covers) is the one it was read from -/
-theorem anchors : pin_analysis_compute_degree = "e9c75ebb425434aa" ∧ pin_analysis_estimate_tree_depth = "2165600c9d813bf0" ∧ pin_analysis_compute_degree_cached = "9580292bbe7c42a5" ∧ pin_analysis_is_linear = "368707ab5315f57a" ∧ pin_analysis_is_quadratic = "997693866754063e" ∧ pin_expressions_Expression_degree = "7b56f3245c66a648" :=
-  ⟨pin_analysis_compute_degree_anchor, pin_analysis_estimate_tree_depth_anchor, pin_analysis_compute_degree_cached_anchor, pin_analysis_is_linear_anchor, pin_analysis_is_quadratic_anchor, pin_expressions_Expression_degree_anchor⟩
+theorem anchors : pin_analysis_estimate_tree_depth = "2165600c9d813bf0" :=
+  pin_analysis_estimate_tree_depth_anchor
 
 end Optyx.Props.PinsC04
